@@ -268,8 +268,10 @@ def reference(case: dict, budget: int = 20000):
             return ("raw", e)
 
         if elems and is_next(elems[-1]):
-            new = [(d, tok(e)) for e in elems[:-1]]          # insert before the untouched rest
-            rest = tail
+            new = [(d, tok(e)) for e in elems[:-1]]          # insert before the rest, which is kept whole;
+            rest = tail                                      # next_inner must not look deeper than this frame
+            if rest:
+                rest = [(min(d, rest[0][0]), rest[0][1])] + rest[1:]
         else:
             new = [(d, tok(e)) for e in elems]
             rest = tail
